@@ -68,23 +68,10 @@ func lastDiagLeaf(n *Node, obs []Obs, next *int, last *int) (verdict bool, ok bo
 
 func (c *Ctx) mkComb(root *Node, obj *AV, canon bool) *combCase {
 	cc := &combCase{root: root, obj: obj, text: c.style(canon).Render(root)}
-	if false {
-		// (until round 5 the composition properties other than C01 took the grouping the engine's own parser gives the text,
-		// so that a change of associativity tripped C01/C20 only. But which comparisons are REACHED - C06, C16 - and what a
-		// compound yields - C02, C17 - are stated for the grammar's grouping: a parser that groups differently breaks them
-		// too, and a change written against one of them must be reported by its own check.)
-		if g := goLexParse(strings.TrimSpace(cc.text)); g.Accept {
-			if gt := treeFromShape(g.Shape); gt != nil {
-				var a, b []*Node
-				root.Leaves(&a)
-				gt.Leaves(&b)
-				if len(a) == len(b) {
-					cc.root = gt
-					root = gt
-				}
-			}
-		}
-	}
+	// (until round 5 the composition properties other than C01 took the grouping the engine's own parser gives the text,
+	// so that a change of associativity tripped C01/C20 only. But which comparisons are REACHED - C06, C16 - and what a
+	// compound yields - C02, C17 - are stated for the grammar's grouping: a parser that groups differently breaks them
+	// too, and a change written against one of them must be reported by its own check.)
 	root.Leaves(&cc.leaves)
 	m := obj.GoMap()
 	poison := poisonObjects(c.R, root)
